@@ -239,6 +239,14 @@ def gen_population(rng):
             inds.append(EVQEIndividual(n, layers, tuple(rng.randint(-8, 8) / 4 for _ in range(sum(l.n_parameters for l in layers)))))
     if m == 5:
         inds = inds + [inds[0], inds[-1]]  # duplicates
+    if rng.random() < 0.25:
+        # a hash-equal but different pair (hash(-1.0) == hash(-2.0); EVQEIndividual.__eq__ compares hashes)
+        x = next((y for y in inds if y.parameter_values), None)
+        if x is not None:
+            k = rng.randrange(len(x.parameter_values))
+            va = tuple(-1.0 if i == k else float(v) for i, v in enumerate(x.parameter_values))
+            vb = tuple(-2.0 if i == k else float(v) for i, v in enumerate(x.parameter_values))
+            inds = inds + [EVQEIndividual(x.n_qubits, x.layers, va), EVQEIndividual(x.n_qubits, x.layers, vb)]
     return EVQEPopulation(tuple(inds), None, None, None)
 
 
